@@ -1010,3 +1010,24 @@ MUTANTS += [
  dict(name='c06-benign-glv-rounding-tie', prop='C06', benign=True, expect='',
       edits=[('src/bls12_381/curve_fast_multiply.cpp', '} else if (BigInt<256>::compare(two_k, Fr::p_value) == -1) {', '} else if (BigInt<256>::compare(two_k, Fr::p_value) != 1) {')]),
 ]
+# ---- ARMv6-M assembly (R-WORDALG, thumbsem)
+MUTANTS += [
+ dict(name='c03-m0-add-chain-restarts', prop='C03', expect='bigint_384_add',
+      edits=[('src/core/arch/armv6_m/bigint.s', '.macro addcarry64 dst, src0, src1\n    ldm \\src0!, {r3, r4}\n    ldm \\src1!, {r5, r6}\n    adc r3, r3, r5', '.macro addcarry64 dst, src0, src1\n    ldm \\src0!, {r3, r4}\n    ldm \\src1!, {r5, r6}\n    add r3, r3, r5')]),
+ dict(name='c03-m0-subtract-returns-carry-not-borrow', prop='C03', expect='bigint_384_subtract',
+      edits=[('src/core/arch/armv6_m/bigint.s', '    sbc r0, r0, r0\n    neg r0, r0', '    eor r0, r0, r0\n    adc r0, r0, r0')]),
+ dict(name='c03-m0-multiply-cross-carry-shift', prop='C03', expect='bigint_768_multiply',
+      edits=[('src/core/arch/armv6_m/multiply.s', '.macro multiply32part2\n    @ Move carry to top half of r5\n    lsl r5, r5, #16', '.macro multiply32part2\n    @ Move carry to top half of r5\n    lsl r5, r5, #15')]),
+ dict(name='c02-m0-montgomery-row-reads-wrong-modulus-word', prop='C02', expect='fpbase_384',
+      edits=[('src/core/arch/armv6_m/multiply.s', '    ldr r0, [r1, #44]\n    muladdcarry32 r2, r0, 4*\\i+44, r0, r3\n    str r6, [sp, #4*\\i+44]\n.endm', '    ldr r0, [r1, #40]\n    muladdcarry32 r2, r0, 4*\\i+44, r0, r3\n    str r6, [sp, #4*\\i+44]\n.endm')]),
+ dict(name='c02-m0-montgomery-meta-carry-lost', prop='C02', expect='fpbase_384',
+      edits=[('src/core/arch/armv6_m/multiply.s', '    ldr r3, [sp, #4*\\i+48]\n    adc r0, r0, r3', '    ldr r3, [sp, #4*\\i+48]\n    add r0, r0, r3')]),
+ dict(name='c02-m0-fused-multiply-reduces-wrong-half', prop='C02', expect='fpbase_384_multiply',
+      edits=[('src/core/arch/armv6_m/multiply.s', '    add r1, sp, #48\n    bl embedded_pairing_core_arch_armv6_m_fpbase_384_reduce', '    add r1, sp, #44\n    bl embedded_pairing_core_arch_armv6_m_fpbase_384_reduce')]),
+ dict(name='c03-m0-square-callee-saved-swapped', prop='C03', expect='callee-saved',
+      edits=[('src/core/arch/armv6_m/multiply.s', '    pop {r4, r5, r6, r7}\n    mov r11, r7\n    mov r10, r6\n    mov r9, r5\n    mov r8, r4\n    pop {r4, r5, r6, r7}\n    bx lr', '    pop {r4, r5, r6, r7}\n    mov r10, r7\n    mov r11, r6\n    mov r9, r5\n    mov r8, r4\n    pop {r4, r5, r6, r7}\n    bx lr')]),
+ dict(name='c03-m0-square-doubling-drops-carry', prop='C03', expect='bigint_768_square',
+      edits=[('src/core/arch/armv6_m/multiply.s', '    stm r1!, {r2-r7}\n    ldm r0!, {r2-r7}\n    adc r2, r2, r2\n    adc r3, r3, r3', '    stm r1!, {r2-r7}\n    ldm r0!, {r2-r7}\n    add r2, r2, r2\n    adc r3, r3, r3')]),
+ dict(name='c02-m0-trampoline-swaps-arguments', prop='C02', expect='trampoline',
+      edits=[('src/core/arch/armv6_m/fp.cpp', 'res_val->reduce(*a_val, *p_val);', 'res_val->reduce(*p_val, *a_val);')]),
+]
